@@ -113,6 +113,27 @@ CHECKS = {
     note="conditional on C09/C10/C11; N<=3 (4 thorough), m=2 (3); " + REAL,
     technique="symbolic execution of the real phase code with predicate summaries + SMT; realisation by Farkas certificates",
     design_ref="DESIGN.md §3 C02/C03"),
+ "C06": dict(
+    text="k consecutive real run_one_step() calls of all nine algorithm classes on a stub posterior (fresh symbolic "
+         "prediction per call), a recording problem (fresh symbolic observations), symbolic costs/budget and free-oracle "
+         "region predicates: on every path and every prefix S only shrinks, P only grows, S∩P=∅, U⊆P, no design returns, "
+         "completion is reported exactly when it should, calls after completion change nothing, the round counter and the "
+         "sample/cost accounting match the evaluations actually requested; any exception on a feasible path is a "
+         "counterexample. The never-crash clause with the real predicates is additionally swept over a configuration grid.",
+    note=REAL + "N=2 designs, 2-3 steps (+2 after completion), batch 1 and 3; free-oracle predicates over-approximate real "
+         "behaviour; real GP numerics outside; one open known finding (rectangle slack size with K != m cones)",
+    technique="symbolic execution of the real run loop with nondeterministic stubs + SMT; concrete configuration sweep",
+    design_ref="DESIGN.md §3 C06"),
+ "C07": dict(
+    text="The real discrete optimisers are executed on arbitrary symbolic acquisition tables (every comparison order incl. "
+         "ties is a path): each pick attains the maximum over the not-yet-picked rows, picks are distinct rows in "
+         "non-increasing order, the decoupled optimiser returns a top-q set of (design, objective) pairs and restores the "
+         "evaluation index; acquisition rules proved on symbolic regions/posteriors; the algorithms' evaluating() on "
+         "recording stubs requests only active designs (bandit classes: each once) and hands exactly the returned "
+         "observation terms, inputs and objective indices to the model.",
+    note=REAL + "n<=4 choices, q<=4, out_dim<=2(3); runs: N=2, 2 steps; Thompson sampling randomness and real posteriors outside",
+    technique="symbolic execution of the real numpy code on z3 reals + SMT per path; term identity on recording stubs",
+    design_ref="DESIGN.md §3 C07"),
 }
 
 _WIP = "check not built yet (work in progress; will be claimed once its harness exists)"
